@@ -10,7 +10,9 @@ def registry : List Obj := [
   pureObj purePow,
   pureObj pureRpc,
   pureObj pureElection,
-  pureObj pureTicker
+  pureObj pureTicker,
+  pureObj pureBeforeTime,
+  pureObj pureMverify
 ]
 
 end ZV.Driver
